@@ -288,6 +288,10 @@ _c09v = [H(f"c09_voter_filter_{a}_peers_{b}_targets", "gen_leader::h", crate="sh
            assumptions=["peer ids in match_index are distinct (map keys); replication-target ids are distinct"],
            bounds=f"{a} peers in match_index, {b} replication targets; ids, roles (any i32), match indexes, commit index, term: full width symbolic")
          for (a, b) in ((2, 2), (3, 2), (3, 3))]
+_c09v.append(dict(_c09v[-1], name="c09_voter_filter_4_peers_3_targets", tier="thorough", timeout=1200,
+                  bounds=_c09v[-1]["bounds"].replace("3 peers in match_index, 3 replication targets", "4 peers in match_index, 3 replication targets")))
+_c09v.append(dict(_c09v[2], name="c09_voter_filter_all_voters_3_peers",
+                  bounds="3 peers = the 3 replication targets, all Followers (ids and roles CONCRETE: the number of match indexes handed over is then concrete); match indexes, commit index, term: full width symbolic"))
 PROPS["C09"]["harnesses"] += _c09m + _c09v
 PROPS["C09"]["sources"].append("d-engine-core/src/raft_role/leader_state.rs")
 PROPS["C09"]["sources"].append("d-engine-core/src/storage/buffered_raft_log.rs")
@@ -304,7 +308,7 @@ PROPS["C09"]["trusted"] = PROPS["C09"]["trusted"] + ["rewrites R1-R6 of kani/sha
 
 # C08: request assembly (verbatim slice of ReplicationHandler::retrieve_to_be_synced_logs_for_peers)
 _c08_stubs = ["function slice: the method's source text compiled as a method of a struct holding the one field it reads (my_id); std HashMap -> insertion-ordered array map "
-              "(2 slots: the leader itself and one peer); raft_log -> leader log model 1..=last (term 1) whose get_entries_range returns exactly the requested entries; "
+              "(2 slots: the leader itself and one peer); raft_log -> leader log model 1..=last (term 1) followed by the just-appended new entries (term 2), whose get_entries_range returns exactly the requested entries; "
               "tracing macros / ScopedTimer -> no-ops; Entry -> {index, term, payload:u8}"]
 prop("C08",
      "SCOPED to the leader's request assembly: the entries retrieve_to_be_synced_logs_for_peers selects for a peer are consecutive and start at the peer's next index "
@@ -322,7 +326,36 @@ prop("C08",
         bounds=b)
       for (n, b) in (("c08_request_contiguous_no_new_entries", "last <= 4, next 1..=last+1, cap 1..=2, no new entries"),
                      ("c08_request_contiguous_new_entry_backlog_within_cap", "last <= 4, next 1..=last+1, cap 1..=2, one new entry, backlog (last-next+1) <= cap"),
-                     ("c08_request_contiguous_new_entry_backlog_exceeds_cap", "last <= 4, next 1..=last+1, cap 1..=2, one new entry, backlog > cap"))])
+                     ("c08_request_contiguous_new_entry_backlog_exceeds_cap", "last <= 4, next 1..=last+1, cap 1..=2, one new entry, backlog > cap"))]
+     + [H("c08_request_contiguous_two_new_entries_backlog_within_cap", "gen_repl::h", tier="thorough", crate="shadow", timeout=1200, common=False, loops=6,
+          functions=["ReplicationHandler::retrieve_to_be_synced_logs_for_peers (verbatim function slice, kani/shadow/gen.py)"], stubs=_c08_stubs,
+          assumptions=["leader log holds every index 1..=last (no compaction)", "new entries are at last+1.. (what the leader just appended)"],
+          bounds="last <= 4, next 1..=last+1, cap 1..=2, two new entries, backlog <= cap"),
+        H("c08_request_contiguous_two_new_entries_short_log", "gen_repl::h", tier="thorough", crate="shadow", timeout=1200, common=False, loops=6,
+          functions=["ReplicationHandler::retrieve_to_be_synced_logs_for_peers (verbatim function slice, kani/shadow/gen.py)"], stubs=_c08_stubs,
+          assumptions=["leader log holds every index 1..=last (no compaction)", "new entries are at last+1.. and already in the leader log"],
+          bounds="last <= 2, next 1..=last+1, cap 1..=2, two new entries, backlog <= cap")])
+
+# C07: the follower's AppendEntries handling (verbatim slices of the three ReplicationHandler methods + d-engine-proto's response helpers)
+_c07f = [H(n, "gen_follower::h", crate="shadow", timeout=600, common=False, loops=6,
+           functions=["ReplicationHandler::handle_append_entries (verbatim slice; async de-sugared: its single .await is on the log's conflict-aware append)",
+                      "ReplicationHandler::check_append_entries_request_is_legal (verbatim slice)", "ReplicationHandler::if_update_commit_index_as_follower (verbatim slice)",
+                      "d-engine-proto impl AppendEntriesResponse {success, conflict, higher_term, is_success, is_conflict, is_higher_term} (verbatim slice)"],
+           stubs=["function slices compiled as methods of a struct holding the one field they read (my_id); request / response / snapshot structs re-declared with the fields the code "
+                  "touches; raft_log -> contiguous follower log model (0..=3 entries, symbolic terms) whose filter_out_conflicts_and_append RECORDS its arguments and answers with a "
+                  "symbolic result and a symbolic new last index; tracing macros / ScopedTimer -> no-ops"],
+           assumptions=["follower log is contiguous 1..=len with non-decreasing terms (no purge boundary)"],
+           bounds=b + "; request term/prev/commit, follower term/commit: full width symbolic")
+         for (n, b) in (("c07_follower_step_heartbeat", "empty AppendEntries"), ("c07_follower_step_one_entry", "request with 1 entry"),
+                        ("c07_follower_step_two_entries", "request with 2 entries"))]
+PROPS["C07"]["harnesses"] += _c07f
+PROPS["C07"]["claim"] += (" Plus the WIRING of the follower's handler (verbatim slices of handle_append_entries, check_append_entries_request_is_legal, if_update_commit_index_as_follower and "
+                          "the response helpers): a request is rejected exactly when its term is stale or its prev entry does not match; a rejected request changes neither the log nor the commit "
+                          "index; an accepted one appends exactly its own entries at its own prev, moves the commit index only forward to min(leader commit, own last index), and acknowledges "
+                          "what the append returned.")
+PROPS["C07"]["outside"] = [o for o in PROPS["C07"]["outside"] if "handle_append_entries" not in o] + [
+    "the conflict-aware append itself on a non-empty log (BufferedRaftLog::filter_out_conflicts_and_append: not decidable, DESIGN 2c) -- the wiring harness records the call",
+    "that the leader's log really contains the entries it reports as committed (leader-side invariants)"]
 
 # C05: the last log id that feeds the election restriction is right after compaction (purge boundary)
 PROPS["C05"]["harnesses"] += [h_c19_pu] + [
